@@ -61,7 +61,7 @@ func vcCmd(args []string) {
 	for _, k := range p.SortedFuncKeys() {
 		match := false
 		for _, pat := range fs.Args() {
-			if strings.Contains(k, pat) || strings.Contains("redis.executor:"+p.ExecName[p.Funcs[k]], pat) {
+			if strings.Contains(k, pat) || (p.ExecName[p.Funcs[k]] != "" && strings.Contains("redis.executor:"+p.ExecName[p.Funcs[k]]+":", pat)) {
 				match = true
 			}
 		}
